@@ -27,6 +27,7 @@ import (
 	"go/ast"
 	"go/parser"
 	"go/token"
+	"math"
 	"net"
 	"os"
 	"os/exec"
@@ -436,6 +437,11 @@ func c16Extract(path string) c16FactSet {
 // generic (untyped) status values whose JSON text survives YAML: strings, ints, bools, int lists
 
 func c16Val(r *Rng, salt int) interface{} {
+	if r.Chance(3) {
+		// a state json.Marshal rejects (no real status structure can hold one: outside the property's
+		// domain, but the model transcribes what the code does with it, and that is compared)
+		return math.NaN()
+	}
 	switch r.Intn(6) {
 	case 0:
 		return r.Intn(3) + salt
@@ -459,7 +465,7 @@ func c16Val(r *Rng, salt int) interface{} {
 func c16JSON(v interface{}) string {
 	b, err := json.Marshal(v)
 	if err != nil {
-		return "!" + err.Error()
+		return "" // protocol token "-"
 	}
 	return string(b)
 }
